@@ -13,6 +13,7 @@ Definition same_but_targets (h:shape -> shape) : Prop :=
 
 Section Strip.
 Variable trig : trig_t.
+Variable W : world.
 Variable h : shape -> shape.
 Hypothesis Hh : same_but_targets h.
 
@@ -29,7 +30,7 @@ Proof. unfold qual_refs. destruct (Hh s) as (_ & _ & _ & _ & ->). reflexivity. Q
 Lemma is_property_shape_h s : is_property_shape (h s) = is_property_shape s.
 Proof. unfold is_property_shape. destruct (Hh s) as (_ & -> & _). reflexivity. Qed.
 Lemma mk_h s c f v d : mk (h s) c f v d = mk s c f v d.
-Proof. unfold mk. destruct (Hh s) as (-> & _ & _ & -> & _). reflexivity. Qed.
+Proof. unfold mk, mkp, shape_rpath. destruct (Hh s) as (-> & -> & _ & -> & _). reflexivity. Qed.
 Lemma in_triggers_h pr s : in_triggers pr (h s) = in_triggers pr s.
 Proof. unfold in_triggers. destruct (Hh s) as (-> & _). reflexivity. Qed.
 
@@ -59,7 +60,7 @@ Proof. induction l as [|x xs IH]; simpl; [reflexivity|]. rewrite IH. reflexivity
 
 Lemma evalc_map (n n':nested_t) g E s fvs ep c :
   (forall s' v, n' (h s') v ep = n s' v ep) ->
-  evalc trig n' g (map h E) (h s) fvs ep c = evalc trig n g E s fvs ep c.
+  evalc trig W n' g (map h E) (h s) fvs ep c = evalc trig W n g E s fvs ep c.
 Proof.
   intros Hn. destruct (Hh s) as (Hsid & _). destruct c; cbn [evalc]; rewrite ?Hsid.
   - f_equal. f_equal. apply flat_map_ext. intros fv. apply map_ext. intros b. apply mk_h.
@@ -127,6 +128,30 @@ Proof.
     + rewrite sibling_refs_map, lookup_all_map.
       destruct (lookup_all E (sibling_refs E (sid s) r)) as [sibs|]; cbn [bind]; [apply Hrest|reflexivity].
     + cbn [bind]. apply (Hrest []).
+  - destruct (negb closed); [reflexivity|]. rewrite prop_refs_h.
+    assert (Hm : mapM (fun r => match lookup (map h E) r with
+                                | Some ps => if is_property_shape ps then Ok ps else Err Reportable
+                                | None => Err Reportable end) (prop_refs s)
+                 = match mapM (fun r => match lookup E r with
+                                | Some ps => if is_property_shape ps then Ok ps else Err Reportable
+                                | None => Err Reportable end) (prop_refs s) with Ok l => Ok (map h l) | Err e => Err e end).
+    { set (F := fun r => match lookup E r with
+                         | Some ps => if is_property_shape ps then Ok ps else Err Reportable
+                         | None => Err Reportable end).
+      induction (prop_refs s) as [|r refs IH]; [reflexivity|]. cbn [mapM]. rewrite IH, lookup_map. unfold F at 2.
+      destruct (lookup E r) as [ps|]; cbn [option_map bind]; [|reflexivity]. rewrite is_property_shape_h.
+      destruct (is_property_shape ps); cbn [bind]; [|reflexivity].
+      destruct (mapM F refs); reflexivity. }
+    rewrite Hm. clear Hm.
+    destruct (mapM (fun r => match lookup E r with
+                             | Some ps => if is_property_shape ps then Ok ps else Err Reportable
+                             | None => Err Reportable end) (prop_refs s)) as [pss|]; cbn [bind]; [|reflexivity].
+    f_equal. f_equal. rewrite flat_map_map.
+    assert (Hw : flat_map (fun x => match spath (h x) with Some (PPred p) => [IRI p] | _ => [] end) pss
+                 = flat_map (fun ps => match spath ps with Some (PPred p) => [IRI p] | _ => [] end) pss).
+    { apply flat_map_ext. intros ps. destruct (Hh ps) as (_ & -> & _). reflexivity. }
+    rewrite Hw. apply flat_map_ext. intros fv. apply flat_map_ext. intros v. apply flat_map_ext. intros t.
+    destruct (_ || _ || _); [reflexivity|]. unfold mkp. destruct (Hh s) as (-> & _ & _ & -> & _). reflexivity.
 Qed.
 
 Lemma loop_h o top s ev cs nc nw acc : loop o top (h s) ev cs nc nw acc = loop o top s ev cs nc nw acc.
@@ -141,7 +166,7 @@ Proof. unfold shape_value_nodes. destruct (Hh s) as (_ & -> & _). reflexivity. Q
 
 (* rewriting target declarations anywhere in the environment changes no evaluation *)
 Theorem vshape_map o g E : forall fuel top ep s foci,
-  vshape trig fuel o g (map h E) top ep (h s) foci = vshape trig fuel o g E top ep s foci.
+  vshape trig W fuel o g (map h E) top ep (h s) foci = vshape trig W fuel o g E top ep s foci.
 Proof.
   induction fuel as [|fuel IH]; intros top ep s foci; cbn [vshape];
     destruct (Hh s) as (Hsid & Hpath & Hdeact & Hsev & Hcomps); rewrite Hdeact; [reflexivity|].
@@ -169,14 +194,15 @@ Qed.
 
 Section Select.
 Variable trig : trig_t.
+Variable W : world.
 
 (* focus_nodes = F: each shape is validated on the nodes of F among its own targets - and every
    check made on other nodes on their behalf is the unrestricted one (the evaluator does not
    receive the filter at all: see the type of vshape, which takes eopts) *)
 Theorem focus_filter_narrows o sg g E s : focus_filter o <> [] ->
-  validate_top trig o sg g E s None =
+  validate_top trig W o sg g E s None =
   (let kept := filter (fun f => is_iri f && tmem f (focus_filter o)) (focus_nodes sg g s) in
-   if isnil kept then Ok (true, []) else validate_top trig (no_filter o) sg g E s (Some kept)).
+   if isnil kept then Ok (true, []) else validate_top trig W (no_filter o) sg g E s (Some kept)).
 Proof.
   intros Hf. cbv zeta. unfold validate_top. destruct (deact s); [destruct (isnil _); reflexivity|].
   destruct (focus_nodes_correct sg g s) as [Hn _].
@@ -190,7 +216,7 @@ Qed.
 (* both options: each selected shape is applied to each node of F, irrespective of targets *)
 Theorem both_options o sg g E use shapes : use <> [] -> focus_filter o <> [] ->
   lookup_selected E use = Ok shapes ->
-  validate_sel trig o sg g E use = run_shapes trig (no_filter o) sg g E shapes (Some (focus_filter o)) false [].
+  validate_sel trig W o sg g E use = run_shapes trig W (no_filter o) sg g E shapes (Some (focus_filter o)) false [].
 Proof.
   intros Hu Hf Hl. unfold validate_sel. destruct use; [congruence|]. rewrite Hl. cbn [bind].
   destruct (focus_filter o); [congruence|reflexivity].
@@ -199,8 +225,8 @@ Qed.
 (* a shape that validates nothing on its own account contributes nothing *)
 Lemma run_shapes_skip o sg g E s rest nc acc :
   abort o && nc = false ->
-  validate_top trig o sg g E s None = Ok (true, []) ->
-  run_shapes trig o sg g E (s :: rest) None nc acc = run_shapes trig o sg g E rest None nc acc.
+  validate_top trig W o sg g E s None = Ok (true, []) ->
+  run_shapes trig W o sg g E (s :: rest) None nc acc = run_shapes trig W o sg g E rest None nc acc.
 Proof.
   intros Ha H. cbn [run_shapes]. rewrite H. cbn [bind fst snd negb]. cbv zeta.
   rewrite orb_false_r, app_nil_r, Ha. reflexivity.
@@ -216,19 +242,19 @@ Proof. intros s. unfold keep_selected. destruct (tmem (sid s) U); simpl; auto. Q
 
 Lemma validate_top_selected o sg g E U s :
   tmem (sid s) U = true ->
-  validate_top trig o sg g (map (keep_selected U) E) s None = validate_top trig o sg g E s None.
+  validate_top trig W o sg g (map (keep_selected U) E) s None = validate_top trig W o sg g E s None.
 Proof.
   intros Hs. unfold validate_top.
-  assert (Hv : forall oo foci, vshape trig (fuel_of oo) oo g (map (keep_selected U) E) true [] s foci
-                              = vshape trig (fuel_of oo) oo g E true [] s foci).
-  { intros oo foci. pose proof (vshape_map trig (keep_selected U) (keep_selected_same U) oo g E (fuel_of oo) true [] s foci) as H.
+  assert (Hv : forall oo foci, vshape trig W (fuel_of oo) oo g (map (keep_selected U) E) true [] s foci
+                              = vshape trig W (fuel_of oo) oo g E true [] s foci).
+  { intros oo foci. pose proof (vshape_map trig W (keep_selected U) (keep_selected_same U) oo g E (fuel_of oo) true [] s foci) as H.
     unfold keep_selected at 2 in H. rewrite Hs in H. exact H. }
   destruct (deact s); [reflexivity|]. destruct (isnil _); [reflexivity|].
   destruct (focus_filter o); [apply Hv|]. destruct (isnil _); [reflexivity|apply Hv].
 Qed.
 
 Lemma validate_top_stripped o sg g E s : implicit_class sg s = false ->
-  validate_top trig o sg g E (strip s) None = Ok (true, []).
+  validate_top trig W o sg g E (strip s) None = Ok (true, []).
 Proof.
   intros Hi. unfold validate_top. destruct (deact (strip s)); [reflexivity|].
   rewrite (no_targets_no_focus sg g (strip s) eq_refl); [reflexivity|].
@@ -238,8 +264,8 @@ Qed.
 Theorem use_shapes_is_target_removal o sg g E U :
   (forall s, In s E -> tmem (sid s) U = false -> implicit_class sg s = false) ->
   forall L nc acc, incl L E -> abort o && nc = false ->
-  run_shapes trig o sg g (map (keep_selected U) E) (map (keep_selected U) L) None nc acc
-  = run_shapes trig o sg g E (filter (fun s => tmem (sid s) U) L) None nc acc.
+  run_shapes trig W o sg g (map (keep_selected U) E) (map (keep_selected U) L) None nc acc
+  = run_shapes trig W o sg g E (filter (fun s => tmem (sid s) U) L) None nc acc.
 Proof.
   intros Himp. induction L as [|s L IH]; intros nc acc Hi Ha; [reflexivity|].
   assert (Hs : In s E) by (apply Hi; left; auto).
